@@ -78,7 +78,20 @@ def w1_lp(p, q, D):
     return 0.5 * (lower + upper), T, 0.5 * (upper - lower)
 
 
+class Line:
+    """Ground metric |x_i - x_j| of samples on a line, given by their positions: Wasserstein-1 then has the closed form
+    sum_i |F_p(x_(i)) - F_q(x_(i))| (x_(i+1) - x_(i)) - a reference that stays cheap for thousands of samples."""
+
+    def __init__(self, x):
+        self.x = np.asarray(x, dtype=float).reshape(-1)
+
+
 def _w1(p, q, A):
+    if isinstance(A, Line):
+        o = np.argsort(A.x, kind="stable")
+        F = np.cumsum((p - q)[o])[:-1]
+        dx = np.diff(A.x[o])
+        return float(np.sum(np.abs(F) * dx)), float(64 * 2.3e-16 * len(p) * (np.abs(p).sum() + np.abs(q).sum()) * dx.sum())
     val, _, slack = w1_lp(p, q, A)
     return val, slack
 
@@ -89,7 +102,7 @@ def _mmd(p, q, A):
     # An implementation that expands (p-q)'A(p-q) into p'Ap + q'Aq - 2p'Aq loses absolute accuracy
     # e ~ eps * (|p|+|q|)'|A|(|p|+|q|) under the square root; allow min(sqrt(e), e/(2 val)).
     s = np.abs(p) + np.abs(q)
-    e = 64 * 2.3e-16 * float(s @ np.abs(A) @ s)
+    e = 64 * 2.3e-16 * max(1.0, len(p) / 64.0) * float(s @ np.abs(A) @ s)      # accumulated rounding grows with the number of terms
     slack = np.sqrt(e) if val == 0 else min(np.sqrt(e), e / (2 * val))
     return val, float(slack)
 
